@@ -6,11 +6,13 @@
 
 using namespace vp;
 
-enum { OP_CONVERT_VEC, OP_CTOR_VEC, OP_CONVERT_MASK, OP_CTOR_MASK, OP_ROUNDTRIP_VEC, OP_IDENTITY, OP_BITCAST_VEC, OP_BITCAST_MASK, OP_BITCAST_SCALAR, OP_COUNT };
+enum { OP_CONVERT_VEC, OP_CTOR_VEC, OP_CONVERT_MASK, OP_CTOR_MASK, OP_ROUNDTRIP_VEC, OP_IDENTITY, OP_BITCAST_VEC, OP_BITCAST_MASK, OP_BITCAST_SCALAR, OP_BITCAST_ANY, OP_COUNT };
 // v0 lanes / mask bits; s0 = destination type index (target table order)
 static const VpOp OPS[] = {
     {"convert_vector", {VK_INT}, {SK_RAW}, 3}, {"converting_constructor_vector", {VK_INT}, {SK_RAW}, 2}, {"convert_mask", {VK_BOOL}, {SK_RAW}, 2}, {"converting_constructor_mask", {VK_BOOL}, {SK_RAW}, 1},
     {"convert_round_trip", {VK_INT}, {SK_RAW}, 1}, {"convert_identity", {VK_INT, VK_BOOL}, {}, 1}, {"bit_cast_vector", {VK_INT}, {SK_RAW}, 1}, {"bit_cast_mask", {VK_BOOL}, {SK_RAW}, 1}, {"bit_cast_scalar", {VK_INT}, {}, 1},
+    // any two vector / mask types of identical representation (s0 = destination type, s1 bit 0: the source is the mask type, bit 1: the destination is the mask type)
+    {"bit_cast_any_pair", {VK_INT, VK_BOOL}, {SK_RAW, SK_SMALL}, 2},
 };
 enum { CL_TOP_BIT, CL_NARROWING_TRUNCATES, CL_MIXED_MASK, CL_WIDENING_NEGATIVE, CL_ORDINARY };
 static const char* const CLASSES[] = {"lane_with_top_bit_set", "narrowing_conversion_truncates", "mixed_mask", "widening_of_negative_value", "ordinary"};
@@ -18,7 +20,7 @@ extern "C" const char* vp_property(void) { return "C17"; }
 extern "C" const VpOp* vp_ops(uint32_t* n) { *n = OP_COUNT; return OPS; }
 extern "C" const char* const* vp_class_names(uint32_t* n) { *n = 5; return CLASSES; }
 extern "C" const char* vp_rule(void) {
-    return "a case is a source vector or mask, a destination type from the fixed table of the 108 conversions the pinned tree provides (plus identity and bit_cast pairs) and a form (convert<>, "
+    return "a case is a source vector or mask, a destination type from the fixed table of the 108 conversions the pinned tree provides (plus identity and bit_cast pairs, and bit_cast between every two vector / mask types with the same primitive type) and a form (convert<>, "
            "converting constructor, round trip, bit_cast); non-trivial = a lane with the top bit set, a narrowing width-1 conversion that truncates, a widening of a negative value, or a mask with mixed lanes; "
            "distinct = distinct hash of the Case";
 }
@@ -93,6 +95,30 @@ template<class A, class B, bool Same = std::is_same<typename A::mask::primitive,
 };
 template<class A, class B> struct BitcastMask<A, B, false> { static void go(const VpCase*, VpOutcome* o) { o->status = 2; } };
 
+// bit_cast between any two vector / mask types of identical representation (the same primitive type, the same object size): the bytes of the
+// primitive are preserved, both directions. (Only those bytes: mask32x8i is alignas(32) around a 4-byte k-mask, the rest is padding.)
+template<class A, class B, bool Same = sizeof(A) == sizeof(B) && std::is_same<typename A::primitive, typename B::primitive>::value> struct AnyCast {
+    static void go(const B& b, VpOutcome* o) {
+        A a = avel::bit_cast<A>(b);
+        const size_t VB = sizeof(typename A::primitive);
+        unsigned char x[sizeof(A)], y[sizeof(B)]; std::memcpy(x, &a, sizeof(A)); std::memcpy(y, &b, sizeof(B));
+        ++o->lanes_compared;
+        if (std::memcmp(x, y, VB) != 0) { fail(o, -1, "bit_cast_any", "bit_cast changed the bytes of the object (first bytes %02x%02x.. -> %02x%02x..)", y[0], sizeof(B) > 1 ? y[1] : 0, x[0], sizeof(A) > 1 ? x[1] : 0); return; }
+        B back = avel::bit_cast<B>(a);
+        std::memcpy(x, &back, sizeof(B));
+        if (std::memcmp(x, y, VB) != 0) fail(o, -1, "bit_cast_any:round_trip", "bit_cast round trip changed bytes");
+    }
+};
+template<class A, class B> struct AnyCast<A, B, false> { static void go(const B&, VpOutcome* o) { o->status = 2; } };
+template<class S> static void anycast_from(const S& src, unsigned dst, bool dmask, VpOutcome* o) {
+    switch (dst) {
+#define X(n) case T_##n: if (dmask) AnyCast<avel::n::mask, S>::go(src, o); else AnyCast<avel::n, S>::go(src, o); return;
+        VP_ALL_VECS(X)
+#undef X
+    default: o->status = 2; return;
+    }
+}
+
 // ---- dispatch over the fixed table ----
 static bool dispatch_table(const VpCase* c, VpOutcome* o, unsigned dst) {
     const unsigned op = c->op;
@@ -132,6 +158,15 @@ template<class V> static void run(const VpCase* c, VpOutcome* o) {
     }
     case OP_BITCAST_VEC: bitcast_vec<CV, V>(c, o); return;
     case OP_BITCAST_MASK: BitcastMask<CV, V>::go(c, o); return;
+    case OP_BITCAST_ANY: {
+        const unsigned kind = (unsigned)((c->s[1] < 0 ? -c->s[1] : c->s[1]) % 4);
+        uint64_t in[VP_MAXL], mb[VP_MAXL]; unsigned pop = 0;
+        for (unsigned i = 0; i < W; ++i) { in[i] = c->v[0][i] & elem<T>::mask(); mb[i] = c->v[1][i] & 1; pop += (unsigned)mb[i]; }
+        if (kind & 1) { if (pop && pop != W) { o->classes |= 1u << CL_MIXED_MASK; o->nontrivial = 1; } M m = mkmask<M>(mb); anycast_from<M>(m, dst, (kind & 2) != 0, o); }
+        else { for (unsigned i = 0; i < W; ++i) if ((in[i] >> (elem<T>::bits - 1)) & 1) { o->classes |= 1u << CL_TOP_BIT; o->nontrivial = 1; } V v = mk<V>(in); anycast_from<V>(v, dst, (kind & 2) != 0, o); }
+        if (!o->nontrivial) o->classes |= 1u << CL_ORDINARY;
+        return;
+    }
     case OP_BITCAST_SCALAR: {
         if (W != 1) { o->status = 2; return; }
         typedef typename CV::scalar CT;
@@ -179,10 +214,22 @@ extern "C" void vp_enum(int tier, uint64_t seed, uint32_t shard, uint32_t nshard
         if (!isf && B == 8) { L.clear(); for (unsigned x = 0; x < 256; ++x) L.push_back(x); }
         if (!isf && B == 16) { L.clear(); for (unsigned x = 0; x < 65536; ++x) L.push_back(x); }
         for (unsigned op = 0; op < OP_COUNT; ++op)
-            for (unsigned dst = 0; dst < (op <= OP_ROUNDTRIP_VEC ? (unsigned)T_COUNT : 1u); ++dst) {
+            for (unsigned dst = 0; dst < ((op <= OP_ROUNDTRIP_VEC || op == OP_BITCAST_ANY) ? (unsigned)T_COUNT : 1u); ++dst)
+              for (unsigned kind = 0; kind < (op == OP_BITCAST_ANY ? 4u : 1u); ++kind) {
                 if ((job++ % nshards) != shard) continue;
-                VpCase c; std::memset(&c, 0, sizeof c); c.target = t; c.op = op; c.s[0] = dst;
+                VpCase c; std::memset(&c, 0, sizeof c); c.target = t; c.op = op; c.s[0] = dst; c.s[1] = kind;
                 { VpOutcome po; std::memset(&po, 0, sizeof po); po.bad_lane = -1; vp_run(&c, &po); if (po.status == 2) continue; }
+                if (op == OP_BITCAST_ANY) {
+                    // one-hot, all-but-one, prefix and mixed patterns for lanes and mask bits alike
+                    for (unsigned k = 0; k < 3 * W + 24; ++k) {
+                        for (unsigned i = 0; i < W; ++i) {
+                            const bool bit = k < W ? (i == k) : k < 2 * W ? (i != k - W) : k < 3 * W ? (i <= k - 2 * W) : (((k * 0x9E3779B97F4A7C15ull + seed) >> (i % 64)) & 1);
+                            c.v[1][i] = bit; c.v[0][i] = bit ? L[(k * 7 + i) % L.size()] | (1ull << (B - 1)) : L[(k + i) % L.size()];
+                        }
+                        emit(&c, ctx);
+                    }
+                    continue;
+                }
                 const bool maskop = (op == OP_CONVERT_MASK || op == OP_CTOR_MASK || op == OP_BITCAST_MASK);
                 if (maskop) {
                     if (W <= 16) for (uint64_t p = 0; p < (1ull << W); ++p) { for (unsigned i = 0; i < W; ++i) c.v[0][i] = (p >> i) & 1; emit(&c, ctx); }
